@@ -911,18 +911,15 @@ func (sc *segmentController[T, O]) create(ctx context.Context, start time.Time) 
 	if marshalErr != nil {
 		logger.Panicf("cannot marshal segment metadata: %s", marshalErr)
 	}
+	// The metadata decides at the next start whether the segment is kept (a missing or empty file makes
+	// open() discard the whole segment), so it must be complete and durable before any data lands in the
+	// segment: write it atomically (tmp + fsync + rename + directory fsync) and make the segment's own
+	// directory entry durable as well.
 	metadataPath := filepath.Join(segPath, metadataFilename)
-	lf, err := sc.lfs.CreateLockFile(metadataPath, FilePerm)
-	if err != nil {
-		logger.Panicf("cannot create lock file %s: %s", metadataPath, err)
-	}
-	n, err := lf.Write(data)
-	if err != nil {
+	if _, err := sc.lfs.WriteAtomic(data, metadataPath, FilePerm); err != nil {
 		logger.Panicf("cannot write metadata %s: %s", metadataPath, err)
 	}
-	if n != len(data) {
-		logger.Panicf("unexpected number of bytes written to %s; got %d; want %d", metadataPath, n, len(data))
-	}
+	sc.lfs.SyncPath(sc.location)
 	return sc.load(ctx, start, end, sc.location)
 }
 
